@@ -7,6 +7,7 @@
    with an address of the supported shape at [s,e), its '@' at a.  All theorems are for every text,
    of any length. *)
 From SV Require Import Model.Common Model.Redact Spec.RedactSpec Proofs.RedactProofs.
+From SV Require Model.GoSem Gen.C14Gen Proofs.C14GenEquiv.
 Local Open Scope nat_scope.
 
 (* The redaction never panics (no index or slice out of range) and its loops terminate within their fuel. *)
@@ -121,3 +122,30 @@ Proof.
         (conj ex_digit_ends_email ex_digit_ends_result)))).
 Qed.
 Print Assumptions C14_example.
+
+(* ---- The tie to the SOURCE: Gen/C14Gen.v is regenerated by tools/go2coq from
+   transform/tredactemail/redactemail.go on every check (all seven functions and the two lookup tables that
+   init() fills).  Proved for every input so far: the generated tables are the model's character classes, and
+   the generated redactEmailCheckNumber returns what the model's check_number returns (no panic, fuel
+   suffices).  A change of these parts of the Go file changes the generated term and breaks the proof.  The other
+   generated functions are compared with the real Go code by bin/go2coq-selftest only (equivalence proofs: todo). ---- *)
+Theorem C14_generated_tables_agree :
+  forall c : N, (c < 256)%N ->
+    GoSem.go_index C14Gen.validWordChars (GoSem.int_of_byte c) = GoSem.GOk (is_word c) /\
+    GoSem.go_index C14Gen.validAddressChars (GoSem.int_of_byte c) = GoSem.GOk (is_addr c).
+Proof. exact (fun c H => conj (C14GenEquiv.word_table_gen c H) (C14GenEquiv.addr_table_gen c H)). Qed.
+Print Assumptions C14_generated_tables_agree.
+
+Theorem C14_generated_redactEmailCheckNumber_agrees :
+  forall s : bytes,
+    GoSem.same_result (check_number s) (C14Gen.redactEmailCheckNumber s) /\
+    GoSem.is_out_of_fuel (C14Gen.redactEmailCheckNumber s) = false.
+Proof. exact C14GenEquiv.check_number_gen_agrees. Qed.
+Print Assumptions C14_generated_redactEmailCheckNumber_agrees.
+
+(* ... hence the generated function itself decides exactly the documented notion of a numeric domain
+   (digits at both ends, only digits and dots in between), on every byte string. *)
+Theorem C14_generated_redactEmailCheckNumber_numeric :
+  forall d : bytes, exists b, C14Gen.redactEmailCheckNumber d = GoSem.GOk b /\ (b = true <-> numeric d).
+Proof. exact C14GenEquiv.check_number_gen_numeric. Qed.
+Print Assumptions C14_generated_redactEmailCheckNumber_numeric.
